@@ -125,6 +125,10 @@ def classify(program: Program, call: ast.Call, target: str, func: Func) -> Tuple
             return "UNCLASSIFIED", q
         if q in ("pathlib.Path",) or q.startswith("pathlib.Path."):
             return ("PURE", q) if q == "pathlib.Path" or q.split(".")[-1] not in PATH_MUT else ("MUT", q)
+        if q in ("glob.glob", "glob.iglob"):
+            return "READ", q
+        if q in ("glob.escape", "glob.has_magic") or q.startswith("fnmatch."):
+            return "PURE", q
         if q == "io.open" or q == "codecs.open":
             mode = open_mode(program, call, func)
             if mode is None or any(c in mode for c in "wax+"):
